@@ -1739,8 +1739,35 @@ def readers_do_not_judge(chk, rule):
         # columns (`genotypes()` on the record buffer).  A status built in front of it (`if alternate_bases().len() > 1 { return Read(vec![None; n]) }`,
         # an "invariant site" shortcut) reports calls that were never looked at - and only for the container format this reader serves.
         dec = [b for b, t in f.calls() if callee_name(t["callee"]).split("::")[-1] == "genotypes"]
+        # (the read-and-decode step extracted into a private helper of the reader: a call of a workspace function that itself - or through
+        # at most two further workspace calls - decodes the columns stands for the decode; what the helper does before its own decode is
+        # then not looked at, which is stated in DESIGN 11.0.2)
+        def _decodes(g_, depth=0):
+            if g_ is None or depth > 2:
+                return False
+            for b_, t_ in g_.calls():
+                n_ = callee_name(t_["callee"])
+                if n_.split("::")[-1] == "genotypes":
+                    return True
+                h_ = prog.fn(t_["callee"].get("resolved") or t_["callee"].get("path") or "")
+                if h_ is not None and h_ is not g_ and "::genotype::reader::" in h_.path and _decodes(h_, depth + 1):
+                    return True
+            return False
+        for b, t in f.calls():
+            h_ = prog.fn(t["callee"].get("resolved") or t["callee"].get("path") or "")
+            if h_ is not None and h_ is not f and "::genotype::reader::" in h_.path and _decodes(h_):
+                dec.append(b)
         built = [(b, g) for g in unit for b, i_, p, rv, s_ in g.assigns() if rv["k"] == "aggregate" and rv.get("adt") == "sfs_core::input::ReadStatus" and rv.get("variant") == "Read"]
-        undecoded = [g.loc(b) for b, g in built if g is f and not any(f.dominates(d, b) for d in dec)]
+        # decided on the data: the payload of every ReadStatus::Read built here slices back to the decode call (a status built from
+        # `vec![None; n]` or from a parsed "0/0" does not), whatever the control flow in between looks like (a helper's `Ok(None)` for "no
+        # record" merged with its success value in front of the match that builds the status)
+        dec_bbs = set(dec)
+        undecoded = []
+        for b, i_, p, rv, s_ in f.assigns():
+            if rv["k"] == "aggregate" and rv.get("adt") == "sfs_core::input::ReadStatus" and rv.get("variant") == "Read" and rv.get("ops"):
+                sl_, info_ = f.slice_locals(rv["ops"][0])
+                if not any(cb in dec_bbs for cb, ct in info_["calls"]):
+                    undecoded.append(f.loc(b))
         chk.ob(rule, "%s::read_genotypes/Read-only-after-the-sample-columns-were-decoded" % kind, bool(dec) and not undecoded, f.loc(),
                "every ReadStatus::Read is dominated by the record's genotypes() decode (decode calls: %d, Read constructions: %d, not dominated: %s)" % (len(dec), len(built), undecoded or "none"))
 
